@@ -115,6 +115,54 @@ CLAIMED = {
              "under the stepped simulated clock.",
         note="Closed under the global context. Glob order, inspect.getmembers order, SendableChooser/NetworkTables/Timer are inputs or simple models validated by correspondence; mode callbacks assumed non-raising here (fault space is C07).",
         technique="Coq proof (induction over layouts and op sequences) + correspondence on generated packages evaluated in Coq", design="6.7"),
+    "C05": dict(
+        text="Theorems (Coq, every robot layout, every history of driver-station words incl. endCompetition): the robot makes exactly the calls of "
+             "the specification in order (with the FMS attached: whatever raises); per pass the mode's own code, then execute() of every component in "
+             "declaration order, then the feedbacks, then robotPeriodic; execute exactly once per enabled pass and never in disabled/test; one pass per "
+             "wake-up; /robot/mode written on entry. Tied to the real startCompetition() (one process per generated robot, stepped simulated clock) by "
+             "full callback-log correspondence incl. /robot/mode and FPGA timestamps on the 20 ms grid.",
+        note='Closed under the global context. One Tick = one wake-up of the mode loop with that driver-station word; the word only changes while the loop waits; user callbacks take no simulated time; HAL notifier, DriverStationSim and ntcore are exercised by the correspondence, not modelled in depth; threads and real-time latency not modelled.' + " The 20 ms grid itself is C16's theorem (NotifierDelay); here it is observed, and 'one pass per wake-up' is what is proved.",
+        technique="Coq proof (induction over guarded programs and tick histories) + callback-log correspondence evaluated in Coq", design="6.4"),
+    "C06": dict(
+        text="Theorems (Coq, all layouts and tick histories): setup() once per component and before every other callback; on_enable() of every component "
+             "before the init hook, the autonomous mode's on_enable and any execute(); on_disable() on leaving autonomous/teleop (before anything of the next "
+             "mode) and again on entering disabled; execute() only inside an on_enable()/on_disable() bracket (replay automaton over the whole call sequence, "
+             "direct auto/teleop/test switches and endCompetition in any mode included). Tied by the same callback-log correspondence as C05.",
+        note='Closed under the global context. One Tick = one wake-up of the mode loop with that driver-station word; the word only changes while the loop waits; user callbacks take no simulated time; HAL notifier, DriverStationSim and ntcore are exercised by the correspondence, not modelled in depth; threads and real-time latency not modelled.', technique="Coq proof (invariant over tick histories, list lemmas) + callback-log correspondence evaluated in Coq", design="6.4"),
+    "C07": dict(
+        text="Theorems (Coq, every set of raising invocations): with the FMS attached every callback of the specified sequence still runs, in order, and no "
+             "exception escapes (the calls equal those of the fault-free robot); every callback of every mode program sits directly under a guard; without the "
+             "FMS the first raising invocation is the last call and the exception propagates out of the robot program. Tied by correspondence with scripted "
+             "faults at arbitrary invocation indices (single, multiple, every time), FMS on and off.",
+        note='Closed under the global context. One Tick = one wake-up of the mode loop with that driver-station word; the word only changes while the loop waits; user callbacks take no simulated time; HAL notifier, DriverStationSim and ntcore are exercised by the correspondence, not modelled in depth; threads and real-time latency not modelled.' + " setup() is outside the property's list and unguarded in the code: theorems assume no setup() raises.",
+        technique="Coq proof (exception semantics of guarded programs by induction) + fault-injection correspondence evaluated in Coq", design="6.4"),
+    "C10": dict(
+        text="Theorems (Coq): will_reset_to attributes start at their defaults; after every teleop/autonomous pass, whatever was assigned and whichever callbacks "
+             "raised (FMS attached), they hold their defaults again; the reset is the last step after execute()s, feedbacks and robotPeriodic; execute() sees the "
+             "store as assigned so far in the pass; unmarked attributes are never touched. Tied by correspondence with scripted assignments and snapshots taken in "
+             "every execute() (inherited markers included).",
+        note='Closed under the global context. One Tick = one wake-up of the mode loop with that driver-station word; the word only changes while the loop waits; user callbacks take no simulated time; HAL notifier, DriverStationSim and ntcore are exercised by the correspondence, not modelled in depth; threads and real-time latency not modelled.', technique="Coq proof (guarded-program semantics, frame lemmas) + snapshot correspondence evaluated in Coq", design="6.4"),
+    "C11": dict(
+        text="Theorems (Coq): every feedback getter is called exactly once per pass in all four modes; after the feedback phase each entry holds the value "
+             "returned in this pass, a raising getter (FMS) leaves its entry exactly as it was and affects no other; key = explicit key else the name with one "
+             "leading 'get_' removed (characterised both ways), entry /components/<name>/<key> or /robot/<key>, topic type from the return annotation table. "
+             "Tied by correspondence: NetworkTables entries read back inside robotPeriodic of every pass; key/type table by the C09 feedback cases.",
+        note='Closed under the global context. One Tick = one wake-up of the mode loop with that driver-station word; the word only changes while the loop waits; user callbacks take no simulated time; HAL notifier, DriverStationSim and ntcore are exercised by the correspondence, not modelled in depth; threads and real-time latency not modelled.', technique="Coq proof (induction over the feedback list) + NT read-back correspondence evaluated in Coq", design="6.4 / 6.6"),
+    "C09": dict(
+        text="Theorems (Coq, all names, histories of python-side and NT-side writes/reads on any number of instances): documented key for the three owner kinds "
+             "with the subtable before the attribute; a read returns the latest write to its key; instances bound under different owners never interfere (disjoint "
+             "key sets, by a string lemma); at setup the default overwrites iff writeDefault or the topic had no value; topic type table total on the supported "
+             "grid (37 842 points by vm_compute) and None exactly on the unsupported cases. Tied by correspondence against real ntcore with an independent "
+             "publisher/subscriber.",
+        note="Closed under the global context. ntcore is modelled as a key-value map (type conflicts, network, unpublishing outside the model); empty struct arrays read back as the default inside pyntcore (recorded in notes_c09.md).",
+        technique="Coq proof (induction over histories, finite vm_compute grid) + correspondence against ntcore evaluated in Coq", design="6.6"),
+    "C17": dict(
+        text="Theorems (Coq over R, every admissible parameter set, instantiated for the three sensors): reading in [lo,hi] for every real voltage, antitone, "
+             "equal to the power law inside the range above the floor, no exception, +-inf handled; simulation helper is the inverse (reading(volts d) = clamp d) "
+             "and remembers d. Tied by per-sample interval lemmas: all 4096 ADC codes (thorough) per sensor through AnalogInputSim and sampled distances through the "
+             "Sim helpers, doubles as exact rationals, tolerance 1e-12.",
+        note="Axioms: the standard library's real-number axioms only (ClassicalDedekindReals.sig_forall_dec, sig_not_dec, FunctionalExtensionality.functional_extensionality_dep, Classical_Prop.classic). The generated per-sample lemmas use the interval tactic (Uint63/PrimInt63 primitives). libm pow and float rounding are idealised and validated on the samples only.",
+        technique="Coq proof over R (monotonicity of Rpower) + per-sample interval lemmas as correspondence", design="6.9"),
 }
 
 PENDING_REASON = "check not built yet in this revision (model and proof planned in DESIGN.md section 6); not claimed until its check exists"
